@@ -248,7 +248,148 @@ def gen_client_history(rng, n_regular, n_deletions, report=None):
     return evs
 
 
-def run_history(report, drv, store, evs, tag):
+# ---- references that are text, not ids ------------------------------------------------------------------------------------
+# The value of an e tag is whatever text the client sent: nothing before the storage layer demands that it be an id, and it is
+# stored verbatim. A backend that puts such a value into the TEXT of a statement, a pattern or a format string instead of passing
+# it as a datum lets the client rewrite the deletion. The values below are built the way such text is always built: leave the
+# context the value is believed to sit in (a quoted string, a hex / blob literal x'..', a LIKE pattern, a double-quoted name, each
+# bare or inside one or two parentheses — a function call, an IN list), add a clause of one's own, and make the rest of the
+# original text harmless: comment it out, or re-open the very context that was left so that it still parses. Whatever a deletion
+# carrying such a value does — be refused, or be accepted with the value ignored — it may remove only own, older events named
+# by a well-formed id: the frame and completeness clauses of run_history are the oracle, unchanged.
+QUOTE_CONTEXTS = [
+    # (name, what closes the context, what re-opens it)
+    ("string", "'", "'"),
+    ("blob", "'", "x'00"),
+    ("blob_empty", "'", "x'"),
+    ("like", "%'", "'%"),
+    ("name", "\"", "\""),
+    ("escaped", "\\'", "'"),
+    ("doubled", "''", "'"),
+    ("nul", "\x00'", "'"),
+    ("bare", "", ""),
+]
+# heads: the value may have to look like the beginning of a proper literal for the text to parse (an even number of hex digits)
+# join / clause: every way of widening or narrowing a WHERE clause, or of lengthening a list
+JOINS = [" OR ", " OR ", " OR ", " or ", "\nOR\t", " OR NOT ", " AND ", " AND NOT ", "||", " UNION SELECT ", "; ", ", ", ","]
+COMMENTS = [" --", "--", " -- ", " /*", "/*", " #", ";--", "\x00"]
+# text that means something to Python (%-formatting, str.format, escapes) or to a pattern language rather than to SQL
+PY_VALUES = ["%s", "%d", "%(id)s", "%%", "%", "{}", "{0}", "{id}", "{{", "}", "\\x00", "\\", "\\\\", "\n", "\r\n", "\t", "\x00", "*", "?", ".*", "[", "$",
+             "None", "null", "NaN", "0", "-1", " ", ""]
+
+
+def hostile_value(rng, own, foreign, who, report=None):
+    """one e-tag value that is text rather than an id. own / foreign: stored events of the deletion's author / of the others"""
+    r = rng.random()
+    if r < 0.12:
+        from lib.qscen import ADV_VALUES       # C01's pool of values that are adversarial for SQL text
+
+        if report is not None:
+            report.count("hostile_values_pool_sql")
+        return rng.choice(ADV_VALUES)
+    if r < 0.22:
+        if report is not None:
+            report.count("hostile_values_pool_python")
+        v = rng.choice(PY_VALUES)
+        # alone, or right after something that looks like an id (never exactly one stray character after an own id: whether
+        # that still names the id is a reading the property leaves open — the LMDB backend says yes, the SQL backend refuses)
+        if own + foreign and len(v) != 1 and rng.random() < 0.4:
+            v = rng.choice(own + foreign)["id"] + v
+        return v
+    def some(pool):
+        return rng.choice(pool)["id"] if pool else gen.mkid(rng)
+
+    # head: the text may have to begin like a proper literal for the whole to parse (an even number of hex digits, a whole id)
+    head = rng.choice(["", "", "00", "00", "ab", "0", some(own), some(foreign), gen.mkid(rng), some(own).upper(), some(own)[:40]])
+    name, close, reopen = rng.choice(QUOTE_CONTEXTS)
+    depth = rng.choice([0, 1, 1, 1, 2])
+    join = rng.choice(JOINS)
+    if report is not None:
+        report.count("hostile_values_context_" + name)
+        report.count("hostile_values_depth_%d" % depth)
+    if join.strip() in (",", ";", "||", "UNION SELECT"):
+        # a further list element / operand / statement: a literal naming somebody else's event or an own one that is not referenced
+        clause = rng.choice(["x'%s'" % some(foreign), "x'%s'" % some(own), "'%s'" % some(foreign), "id FROM events", "DELETE FROM events",
+                             "DELETE FROM tags", "1", "''"])
+        if clause.endswith("'") and close.endswith("'") and rng.random() < 0.6:
+            # the closing quote of the original text ends the new literal: nothing is left over
+            if report is not None:
+                report.count("hostile_values_tail_list_element")
+            return head + close + join + clause[:-1]
+    else:
+        # every column of the events table, in clauses that hold for all rows, for some rows, for rows of other authors
+        clause = rng.choice(["1=1", "1", "true", "kind = 1", "kind >= 0", "kind IS NOT NULL", "id IS NOT NULL", "created_at > 0",
+                             "pubkey IS NOT NULL", "id NOT IN (x'00')", "pubkey != x'%s'" % who, "pubkey <> x''", "content = ''",
+                             "id = x'%s'" % some(foreign), "id = x'%s'" % some(own), "id IN (x'%s', x'%s')" % (some(foreign), some(own)),
+                             "hex(id) LIKE '%'", "id LIKE '%'", "''=''"])
+    tail_kind = rng.choice(["comment", "reopen", "reopen", "none"])
+    if tail_kind == "comment":
+        tail = rng.choice(COMMENTS)
+    elif tail_kind == "reopen":
+        # one more clause, which ends inside the context that was left, at the parenthesis depth that was left
+        if depth:
+            opener = rng.choice(["id IN ", "id NOT IN ", "id NOT IN ", "'' IN ", "x'' = ", "'' = ", "1 = length", "'' = hex"])
+        else:
+            opener = rng.choice(["x'' = ", "'' = ", "id != ", "'' || "])
+        tail = rng.choice([" OR ", " AND ", " OR NOT ", " AND NOT "]) + opener + "(" * depth + reopen
+    else:
+        tail = ""
+    if report is not None:
+        report.count("hostile_values_tail_" + tail_kind)
+    return head + close + ")" * depth + join + clause + tail
+
+
+def gen_hostile_history(rng, n_regular, n_deletions, report=None):
+    """regular events by three authors, then kind-5 events whose e tags hold hostile text — alone, several at once, and next to
+    well-formed references to own older / own newer / foreign / unknown events. Several deletions per history (on an
+    implementation that refuses or ignores the text the store hardly changes, so every one of them meets a full store)."""
+    evs = []
+    t = T0
+    for _ in range(n_regular):
+        t += rng.choice([0, 1, 1, 2])
+        k = rng.choice([1, 1, 1, 7, 4, 6, 30000, 10002, 0])
+        tags = [["d", rng.choice(["x", "y"])]] if k == 30000 else []
+        if evs and rng.random() < 0.3:
+            o = rng.choice(evs)
+            tags += [["e", o["id"]], ["p", o["pubkey"]]]
+        if rng.random() < 0.2:
+            tags.append(["t", rng.choice(["a", "ab", "'"])])
+        evs.append({"id": gen.mkid(rng), "pubkey": rng.choice(AUTH), "created_at": t, "kind": k, "tags": tags,
+                    "content": rng.choice(["", "hello", "it's"]), "sig": "00" * 64})
+    for _ in range(n_deletions):
+        stored = [x for x in evs if x["kind"] != 5]
+        who = rng.choice(stored)["pubkey"] if rng.random() < 0.9 else rng.choice(AUTH)
+        own = [x for x in stored if x["pubkey"] == who]
+        foreign = [x for x in stored if x["pubkey"] != who]
+        hostile = [["e", hostile_value(rng, own, foreign, who, report)] for _ in range(rng.choice([1, 1, 1, 2, 3]))]
+        good = []
+        shape = rng.choice(["alone", "alone", "with_own", "with_own", "with_own", "with_foreign", "with_mixed", "with_mixed"])
+        if shape in ("with_own", "with_mixed") and own:
+            good += [["e", x["id"]] for x in rng.sample(own, min(len(own), rng.choice([1, 1, 2, 3])))]
+        if shape in ("with_foreign", "with_mixed") and foreign:
+            good += [["e", x["id"]] for x in rng.sample(foreign, min(len(foreign), rng.choice([1, 2])))]
+        if shape == "with_mixed" and rng.random() < 0.5:
+            good.append(["e", gen.mkid(rng)])
+        if not good:
+            shape = "alone"
+        tags = good + hostile
+        if rng.random() < 0.7:
+            rng.shuffle(tags)
+        if rng.random() < 0.2:
+            # the same text where other references live: relay hint of a good e tag, an address, a p / k tag
+            v = hostile[0][1]
+            tags.append(rng.choice([["e", rng.choice(stored)["id"], v], ["a", "1:%s:%s" % (who, v)], ["a", v], ["p", v], ["k", v]]))
+        when = t + rng.choice([1, 1, 2, 100]) if rng.random() < 0.85 else rng.choice(stored)["created_at"]
+        evs.append({"id": gen.mkid(rng), "pubkey": who, "created_at": when, "kind": 5, "tags": tags,
+                    "content": "", "sig": "00" * 64})
+        if report is not None:
+            report.count("hostile_deletions")
+            report.count("hostile_deletions_" + shape)
+    return evs
+
+
+def run_history(report, drv, store, evs, tag, served=False):
+    """served: after every kind-5 event also ask for every event that has to stay, by get_event and by a query by id"""
     store.reset()
     lines = [{"op": "kv.reset"}] if store.backend == "kv" else [{"op": "sql.reset"}]
     expect = ["ok"]
@@ -276,6 +417,8 @@ def run_history(report, drv, store, evs, tag):
                 lines.append({"op": "sql.dump"})
                 expect.append(store.dump())
         payload = {"backend": store.backend, "events": list(prefix)}
+        if served:
+            payload["served"] = True
         removed = {i for i in before - after if i != n["id"]}
         if n["kind"] != 5:
             # (a replaceable event may supersede the older versions of its own address: C09's business)
@@ -296,6 +439,19 @@ def run_history(report, drv, store, evs, tag):
                     "%s: deletion %s by %s.. removed %s (author %s.., referenced: %s)"
                     % (store.backend, n["id"][:8], n["pubkey"][:6], r[:8], ev["pubkey"][:6] if ev else "?", r in refs),
                     payload, None)
+        if served:
+            # what the deletion had no right to remove is still there for a reader: by get_event (/e/<id>) and by a query by id
+            stay = sorted(i for i in before & after if i in by_id
+                          and not (by_id[i]["pubkey"] == n["pubkey"] and i in refs))
+            answered = {e.id for e in store.query([{"ids": stay}])} if stay else set()
+            for i in stay:
+                missing = [w for w, there in (("get_event", store.get(i) is not None), ("a query by id", i in answered)) if not there]
+                if missing:
+                    report.property_failure(
+                        "%s: after deletion %s by %s.., event %s (author %s.., referenced: %s) is stored but not served by %s"
+                        % (store.backend, n["id"][:8], n["pubkey"][:6], i[:8], by_id[i]["pubkey"][:6], i in refs, " nor by ".join(missing)),
+                        payload, None)
+            report.count("deletions_%s_%s" % ("refused" if res["exc"] else "accepted" if res["ok"] else "not_new", store.backend))
         # completeness (only when the deletion was accepted as a new event)
         if res["ok"]:
             owed = {i for i in before if i in by_id and by_id[i]["pubkey"] == n["pubkey"] and i in refs
@@ -355,7 +511,13 @@ def run(report, tier, seed):
         "kind-5 events with 1-6 e references (relay hints / markers) to own events of up to 6 different kinds, foreign and unknown ids, "
         "and advisory tags: NIP-09 k tags (none / exactly the target kinds / one per target / a subset / only wrong kinds / a superset / "
         "unparsable / mixed; ascending, descending, shuffled; bare; extra items), a coordinates, p, alt, arbitrary single-letter tags, "
-        "in e-k-rest, k-first or shuffled layout, created after all / between the targets")
+        "in e-k-rest, k-first or shuffled layout, created after all / between the targets; "
+        "references that are hostile text: 4-9 regular events by 3 authors, then 4-8 kind-5 events whose e tags hold 1-3 values built to "
+        "leave a quoting context (string, x'..' blob literal, LIKE pattern, double-quoted name, escaped / doubled / NUL-preceded quote, bare; "
+        "inside 0-2 parentheses), add a clause (OR / AND / NOT over every column, a further list element naming a foreign or an unreferenced own id, "
+        "a second statement, UNION) and neutralise the rest (comment, re-opened context, nothing), C01's adversarial SQL values and Python "
+        "format / escape / pattern text; alone, or next to well-formed references to own / foreign / unknown ids, also repeated in relay-hint, "
+        "a, p and k positions; after each such deletion every event that has to stay is also read back by get_event and by a query by id")
     report.assumptions += ["validators disabled (synthetic unsigned events)"]
     try:
         for e in report.known:
@@ -373,6 +535,14 @@ def run(report, tier, seed):
             for st in stores:
                 run_history(report, drv, st, evs, "client:%d" % i)
             report.count("client_histories")
+        # e tags whose value is hostile text rather than an id. Volume on general grounds: nine quoting contexts x three parenthesis
+        # depths x four ways of ending the text = ~100 shapes of which an implementation that splices text is open to a few, so
+        # several hundred values per run (4-8 deletions with 1-3 values each per history)
+        for i in range(60 if tier == "quick" else 1500):
+            evs = gen_hostile_history(rng, rng.randint(4, 9), rng.randint(4, 8), report)
+            for st in stores:
+                run_history(report, drv, st, evs, "hostile:%d" % i, served=True)
+            report.count("hostile_histories")
     finally:
         for st in stores:
             st.close()
@@ -389,7 +559,7 @@ def replay(report, path):
         for it in (data.get("violations") or []) + (data.get("correspondence_breaks") or []):
             r = it.get("replay") or it.get("input")
             if "backend" in r:
-                run_history(report, drv, stores[r["backend"]], r["events"], "replay")
+                run_history(report, drv, stores[r["backend"]], r["events"], "replay", served=bool(r.get("served")))
     finally:
         for st in stores.values():
             st.close()
